@@ -130,9 +130,10 @@ class NsConcWorld(World):
     NAME = "nsconc"
     REAL = ["Pyro5.nameserver.NameServer", "Pyro5.nameserver.MemoryStorage",
             "Pyro5.nameserver.SqlStorage over a real sqlite file (each storage call one scheduling atom)", "Pyro5.core.URI"]
-    STUB = ["threading.RLock (simulated, baton scheduler)", "client threads call NameServer methods directly (no wire)"]
+    STUB = ["threading.RLock (simulated, baton scheduler)", "client threads call NameServer methods directly (88% of the plans) or "
+            "through a real thread-pool Daemon and Proxies over in-memory sockets with one of the four serializers (12%)"]
     PROBES = ["overlap", "preempted", "safe_register_conflict", "remove_conflict", "naming_error", "sql_storage",
-              "list_during_mutation", "stalled", "commtimeout", "autoclean", "autoclean_removed"]
+              "list_during_mutation", "stalled", "commtimeout", "autoclean", "autoclean_removed", "wire"]
     RULE = ("plan = (storage, initial registrations, 2-4 threads x 1-2 operations on names with a common prefix, "
             "pre-emption probabilities); distinct = distinct interleaving digest; non-trivial = at least two operations "
             "overlapped in time and at least one scheduling choice deviated from run-to-block")
@@ -148,6 +149,12 @@ class NsConcWorld(World):
 
     def gen(self, rng, tier):
         plan = self._gen(rng, tier)
+        if rng.random() < 0.12 and plan["storage"] == "memory":
+            # the clients talk to the name server the way real clients do: through a daemon (thread pool server: one worker
+            # per client, so the operations still overlap) and proxies, with one of the serializers
+            plan["wire"] = {"serializer": rng.choice(["serpent", "json", "marshal", "msgpack", "msgpack"])}
+            plan["p_line"] = rng.choice([0.01, 0.03, 0.08])
+            return plan
         if rng.random() < 0.1:
             # the name server's own background thread: NS_AUTOCLEAN on, two registrations whose daemons do not answer.
             # The AutoCleaner removes them ~24 virtual seconds after it started, which is when the clients operate
@@ -273,6 +280,15 @@ class NsConcWorld(World):
                 "p_block": rng.choice([0.2, 0.5, 1.0])}
 
     def line_codes(self, plan):
+        if plan.get("wire"):
+            if "wire" not in _CODES:
+                import Pyro5.serializers as SER
+                import serpent
+                _CODES["wire"] = list(_codes("memory")) + list(S.code_objects(
+                    serpent.Serializer, *[v for v in vars(SER).values()
+                                          if (isinstance(v, type) and v.__module__ == SER.__name__) or
+                                          (hasattr(v, "__code__") and getattr(v, "__module__", "") == SER.__name__)]))
+            return _CODES["wire"]
         if plan.get("autoclean"):
             key = plan["storage"] + "+cleaner"
             if key not in _CODES:
@@ -310,6 +326,15 @@ class NsConcWorld(World):
                 _, init = model_apply(op, init)
             hist = []
             internal = []
+            wire = plan.get("wire")
+            uri = None
+            if wire:
+                ctx.probe("wire")
+                from .common import Server
+                from ..seams import CL
+                config.SERIALIZER = wire["serializer"]
+                srv = Server(ctx, "thread", pool=(1, 8))
+                uri = srv.register(ns, "Pyro.NameServer")
             ac = plan.get("autoclean")
             cleaner = None
             t_begin = sched.stamp()
@@ -331,7 +356,15 @@ class NsConcWorld(World):
                 cleaner.name = "autocleaner"
                 cleaner.start()
 
+            gate = {"n": 0}
+
             def client(ops, k=0):
+                target = ns
+                if wire:
+                    target = CL.Proxy(uri)
+                    target._pyroBind()
+                    gate["n"] += 1
+                    sched.block(lambda: gate["n"] >= nclients, 60.0, "all-connected")     # the operations, not the handshakes, race
                 if ac:
                     sched.sleep(ac["at"][k % len(ac["at"])])
                 for op in ops:
@@ -339,7 +372,9 @@ class NsConcWorld(World):
                     sched.yield_point("op")
                     raw = None
                     try:
-                        raw = self._call(ns, op)
+                        raw = self._call(target, op)
+                        if wire:
+                            raw = self._unwire(op, raw)
                         h["res"] = ("ok", None)
                     except Pyro5.errors.NamingError:
                         h["res"] = ("exc", "NamingError")
@@ -362,6 +397,7 @@ class NsConcWorld(World):
                             internal.append((op, x))
                     hist.append(h)
 
+            nclients = sum(1 for ops in plan["threads"] if ops)
             ths = [threading.Thread(target=client, args=(ops, i), name="ns-client%d" % i)
                    for i, ops in enumerate(plan["threads"]) if ops]
             for t in ths:
@@ -426,6 +462,16 @@ class NsConcWorld(World):
         finally:
             if tmp:
                 shutil.rmtree(tmp, ignore_errors=True)
+
+    @staticmethod
+    def _unwire(op, raw):
+        """what a serializer may legitimately change on the way: sets arrive as lists / tuples (json, marshal, msgpack), pairs as lists"""
+        k = op["op"]
+        if k == "lookup" and op["meta"] and isinstance(raw, (list, tuple)) and len(raw) == 2:
+            return (raw[0], set(raw[1] or ()))
+        if k == "list" and op["meta"] and isinstance(raw, dict):
+            return {n: ((v[0], set(v[1] or ())) if isinstance(v, (list, tuple)) and len(v) == 2 else v) for n, v in raw.items()}
+        return raw
 
     @staticmethod
     def _kind(op):
